@@ -271,7 +271,8 @@ def _c19_callee(call):
 
 
 def _c19_names(fn):
-    """(parameter names, names bound inside the function) — nested defs / classes / lambdas excluded"""
+    """(names that stand for something the caller supplied: parameters and their plain aliases, other names bound
+    inside the function) — nested defs / classes / lambdas excluded"""
     a = fn.args
     params = {x.arg for x in a.posonlyargs + a.args + a.kwonlyargs}
     if a.vararg:
@@ -288,7 +289,76 @@ def _c19_names(fn):
                 bound.add(ch.id)
             walk(ch)
     walk(fn)
-    return params, bound - params
+    bound -= params
+    # alias resolution: a local all of whose bindings are (possibly conditional) copies of ONE parameter is that
+    # parameter as far as provenance goes: `x = p`, `x = p if c else None`, `x = Path(p) if c else None`,
+    # `x, y = (p, None) if c else (None, p)`.  Anything else (for / with targets, other values) stays <local>.
+    _CONVERTERS = {"Path", "PurePath", "str", "fspath", "os.fspath", "pathlib.Path"}
+    sources = {}          # local -> set of parameters it was copied from, or None when bound in any other way
+
+    def origin(v):
+        """the parameter a value copies, "" for None, None for anything else"""
+        if isinstance(v, ast.Constant) and v.value is None:
+            return ""
+        if isinstance(v, ast.Name) and v.id in params:
+            return v.id
+        if (isinstance(v, ast.Call) and ast.unparse(v.func) in _CONVERTERS and len(v.args) == 1 and not v.keywords):
+            return origin(v.args[0]) or None
+        if isinstance(v, ast.IfExp):
+            a, b = origin(v.body), origin(v.orelse)
+            if a is None or b is None or (a and b and a != b):
+                return None
+            return a or b
+        return None
+
+    def bind(target, value):
+        if isinstance(target, ast.Name):
+            if target.id in params:
+                return
+            o = origin(value) if value is not None else None
+            if o is None or sources.get(target.id, set()) is None:
+                sources[target.id] = None
+            elif o:
+                sources.setdefault(target.id, set()).add(o)
+            else:
+                sources.setdefault(target.id, set())
+        elif isinstance(target, (ast.Tuple, ast.List)):
+            def elems(v):
+                if isinstance(v, (ast.Tuple, ast.List)) and len(v.elts) == len(target.elts):
+                    return [[e] for e in v.elts]
+                if isinstance(v, ast.IfExp):
+                    x, y = elems(v.body), elems(v.orelse)
+                    return [a + b for a, b in zip(x, y)] if x and y else None
+                return None
+            cols = elems(value) if value is not None else None
+            for i, t in enumerate(target.elts):
+                if cols is None:
+                    bind(t, None)
+                else:
+                    for v in cols[i]:
+                        bind(t, v)
+
+    assigned = set()
+
+    def scan(node):
+        for ch in ast.iter_child_nodes(node):
+            if isinstance(ch, (ast.FunctionDef, ast.AsyncFunctionDef, ast.ClassDef, ast.Lambda)):
+                continue
+            if isinstance(ch, ast.Assign):
+                for t in ch.targets:
+                    bind(t, ch.value)
+                    assigned.update(n for n in ast.walk(t) if isinstance(n, ast.Name))
+            elif isinstance(ch, ast.AnnAssign) and ch.value is not None:
+                bind(ch.target, ch.value)
+                assigned.update(n for n in ast.walk(ch.target) if isinstance(n, ast.Name))
+            scan(ch)
+    scan(fn)
+    # every other binding occurrence (for / with / except targets, walrus, augmented assignment, del) disqualifies
+    for n in ast.walk(fn):
+        if isinstance(n, ast.Name) and isinstance(n.ctx, (ast.Store, ast.Del)) and n not in assigned and n.id in sources:
+            sources[n.id] = None
+    aliases = {x for x, src in sources.items() if src is not None and len(src) == 1}
+    return params | aliases, bound - aliases
 
 
 def _c19_helper_returns(fn):
